@@ -73,6 +73,14 @@ var headerNames = []string{"Content-Type", "content-length", "X-Custom", "x-UPPE
 	// every character RFC 7230 allows in a field name, upper-case letters next to the specials
 	"X^Caret", "X_Under_Upper", "x`tick", "x|bar", "x~tilde", "x#hash", "x$dollar", "x%percent", "x&amp", "x'quote", "x*star", "x+plus", "X!#$%&'*+-.^_`|~Z"}
 
+// Pick7bitControl returns HTAB half of the time, otherwise another control octet (NUL, SOH, LF, CR, US, DEL).
+func Pick7bitControl(g *mon.Rand) byte {
+	if g.Bool() {
+		return '\t'
+	}
+	return mon.Pick(g, []byte{0x00, 0x01, 0x0a, 0x0d, 0x1f, 0x7f})
+}
+
 func headerValue(g *mon.Rand) string {
 	n := mon.Pick(g, []int{0, 1, 5, 12, 23, 24, 60, 255, 256})
 	if g.Chance(1, 60) {
@@ -82,7 +90,8 @@ func headerValue(g *mon.Rand) string {
 	for i := range b {
 		b[i] = byte(0x20 + g.Intn(0x5f))
 		if g.Chance(1, 40) {
-			b[i] = '\t'
+			// every 7-bit octet is "ASCII" for the bundle reader and writer: HTAB, DEL and the other controls included
+			b[i] = Pick7bitControl(g)
 		}
 	}
 	return string(b)
